@@ -261,7 +261,8 @@ impl InfixOpManager {
             return (-1, -1);
         }
         let config = ans.unwrap();
-        let l_bp = config.0;
+        // doubled so that l_bp +/- 1 never collides with an adjacent precedence
+        let l_bp = config.0.saturating_mul(2);
         let mut r_bp = 0;
         if config.2 == InfixOpAssociativity::LEFT {
             r_bp = l_bp + 1;
